@@ -70,6 +70,7 @@ func buildPlan(seed uint64, n int, tier string, search bool) []wo.FaultInput {
 	scens := []scen{
 		{nil, wo.WriteOut{ID: 0, Iface: "eth0", TS: 1700000100, NV4: 2, NV6: 1, Drops: 3}},   // first write-out ever
 		{base, wo.WriteOut{ID: 2, Iface: "eth0", TS: 1700000700, NV4: 1, NV6: 1, Drops: 2}}, // existing day, new totals
+		{base, wo.WriteOut{ID: 2, Iface: "eth0", TS: 1700000700, NV4: 1, NV6: 0, Drops: 0, Bulk: 44}}, // compressed columns
 	}
 	extra := 0
 	if tier == "thorough" {
@@ -89,11 +90,9 @@ func buildPlan(seed uint64, n int, tier string, search bool) []wo.FaultInput {
 		if err != nil {
 			fatal(err)
 		}
-		heal := wo.WriteOut{ID: sc.w.ID + 1, Iface: sc.w.Iface, TS: sc.w.TS + 300, NV4: 1, NV6: 1, Drops: 1}
+		// the healing write-out has compressed columns: it depends on where the column files are opened
+		heal := wo.WriteOut{ID: sc.w.ID + 1, Iface: sc.w.Iface, TS: sc.w.TS + 300, NV4: 1, NV6: 1, Drops: 1, Bulk: 40}
 		for k := 0; k < len(ops); k++ {
-			if wo.ForksDay(ops, k) {
-				continue
-			}
 			es := []string{errnos[(k+si)%3]}
 			if tier == "thorough" {
 				es = errnos
@@ -113,9 +112,6 @@ func buildPlan(seed uint64, n int, tier string, search bool) []wo.FaultInput {
 					w.ID = sc.w.ID + i
 					w.TS = sc.w.TS + int64(i)*300
 					k := hr.Intn(len(ops))
-					if k < 3 { // keep away from the month listing (its shape depends on the state)
-						k = 3
-					}
 					fl = append(fl, wo.Fault{W: w, K: k, Errno: errnos[hr.Intn(3)]})
 				}
 				heal2 := heal
